@@ -13,6 +13,7 @@ requests (one token per argument; `-` is the empty field list)
   band jup jband       columns read for a row (jup = g + JJ)    -> [..]
   bandw ng jup jband   columns written (row = 0..ng-1)          -> [..]
   implicit HEXNAME     first letter implies integer             -> T|F
+  afloat BITS64        " {:+.16E}".format of the double           -> hex | reject (inf/nan)
 FIELDS := field(,field)*   field := iINT | lINT | fNAT(32-bit pattern) | dNAT(64-bit pattern) | sLEN:HEX
           in ASCII records f/d carry the 64-bit pattern of the Python float that is formatted
 KINDS  := kind(,kind)*     kind := i | l | f | d | sLEN
@@ -55,23 +56,8 @@ def parseField (t : String) : Option Field :=
 def parseFields (t : String) : Option (List Field) :=
   if t = "-" then some [] else (t.splitOn ",").mapM parseField
 
-/-- decode an IEEE double bit pattern: (negative, mantissa, binary exponent); none for inf/nan -/
-def doubleParts (n : Nat) : Option (Bool × Nat × Int) :=
-  let neg : Bool := decide (n / 2 ^ 63 % 2 = 1)
-  let e : Nat := n / 2 ^ 52 % 2048
-  let fr : Nat := n % 2 ^ 52
-  if e = 2047 then none
-  else if e = 0 then some (neg, fr, -1074)
-  else some (neg, fr + 2 ^ 52, (e : Int) - 1075)
-
-/-- an ASCII float field as a codec for writing only (reading floats back is a parameter of the model) -/
-def asciiFloat (declared : Nat) : Codec Nat where
-  enc n := match doubleParts n with
-    | some (neg, m, e) => asciiFloatField neg m e
-    | none => []
-  dec _ := none
-  size _ := declared
-  ok n := (doubleParts n).isSome
+/-- ASCII real fields are written by the model; reading them back is a parameter (`parse`), absent here -/
+def asciiFloat (declared : Nat) : Codec Nat := asciiReal (fun _ => none) declared
 
 /-- the trace as a record body; `none` when a value is outside its routine's domain (struct.error) -/
 def bodyB : List Field → Option (RW Unit)
@@ -171,6 +157,9 @@ def answer : List String → String
   | ["bandw", ng, jup, jb] => match parseNat? ng, parseNat? jup, parseNat? jb with
       | some ng, some jup, some jb => showList toString (bandWrite (List.range ng) jup jb)
       | _, _, _ => "bad-op"
+  | ["afloat", n] => match parseNat? n with
+      | some n => if (doubleParts n).isSome then toHex (asciiRealField n) else "reject"
+      | none => "bad-op"
   | ["implicit", h] => match fromHex h with
       | some (b :: _) => showBool (implicitInt (Char.ofNat b.toNat).toUpper)
       | _ => "bad-op"
